@@ -21,7 +21,7 @@ The offsets that the result carries (`kidOff`, `cdOff`: where the returned slice
 do not exist in the Rust structure; they are what `slice.as_ptr() - message.as_ptr()` is, and let the
 driver compare positions, not only contents.
 -/
-namespace Codec.Der
+namespace Codec.DerRd
 
 def OID_PKCS7_SIGNED_DATA : List Nat := [0x2a, 0x86, 0x48, 0x86, 0xf7, 0x0d, 0x01, 0x07, 0x02]
 def OID_PKCS7_DATA : List Nat := [0x2a, 0x86, 0x48, 0x86, 0xf7, 0x0d, 0x01, 0x07, 0x01]
@@ -188,4 +188,4 @@ def encSignedData (content kid r s : List Nat) : List Nat :=
 def encCms (content kid r s : List Nat) : List Nat :=
   encTlv TAG_SEQUENCE (encOid OID_PKCS7_SIGNED_DATA ++ encTlv 0xA0 (encSignedData content kid r s))
 
-end Codec.Der
+end Codec.DerRd
